@@ -331,7 +331,8 @@ class InMemoryPersister(Persister):
         self._checkpoints.setdefault(process.pid, {})[tag] = Bundle(process, self._save_context, dereference=True)
 
     def load_checkpoint(self, pid: PID_TYPE, tag: Optional[str] = None) -> Bundle:
-        return self._checkpoints[pid][tag]
+        # Hand out a copy: a process recreated from the bundle shares its mutable values and would modify the checkpoint
+        return copy.deepcopy(self._checkpoints[pid][tag])
 
     def get_checkpoints(self) -> List[PersistedCheckpoint]:
         cps = []
